@@ -3,6 +3,7 @@ module verif/harness
 go 1.26.8
 
 require (
+	github.com/klauspost/reedsolomon v1.12.0
 	github.com/tjfoc/gmsm v1.4.1
 	github.com/xtaci/kcp-go/v5 v5.0.0
 	golang.org/x/crypto v0.45.0
@@ -11,7 +12,6 @@ require (
 
 require (
 	github.com/klauspost/cpuid/v2 v2.2.6 // indirect
-	github.com/klauspost/reedsolomon v1.12.0 // indirect
 	github.com/pkg/errors v0.9.1 // indirect
 	golang.org/x/net v0.47.0 // indirect
 	golang.org/x/sys v0.38.0 // indirect
